@@ -233,7 +233,10 @@ func checkC12(r *mc.Report, thorough bool) {
 		mix = append(mix, data.Point{Time: c12Times[i%len(c12Times)], Type: c12Strs[i%len(c12Strs)], Key: c12Strs[(i+3)%len(c12Strs)], Value: math.Float64frombits(c12ValBits[i%len(c12ValBits)]),
 			Text: c12Strs[(i+5)%len(c12Strs)], Data: c12Datas[i%len(c12Datas)], Tombstone: c12Tombs[i%len(c12Tombs)], Origin: c12Strs[(i+1)%len(c12Strs)]})
 	}
-	p = r.Part("node-roundtrip", "nodes over ids/types/parents x hash {0,1,2^31,2^32-1} x 0..2 points x 0..2 edge points (all ordered selections from a 12-point mix) through ToPb->PbDecodeNode, Nodes.ToPb->PbDecodeNodes, reply format->PbDecodeNodesRequest / PbDecodeNodeRequest; lists of 0..3 points keep order")
+	// points of the types the schema itself gives a meaning to (a decoder must not treat them specially)
+	mix = append(mix, data.Point{Time: c12Times[1], Type: data.PointTypeNodeType, Text: "device"},
+		data.Point{Time: c12Times[2], Type: data.PointTypeTombstone, Value: 1, Origin: "o"})
+	p = r.Part("node-roundtrip", "nodes over ids/types/parents x hash {0,1,2^31,2^32-1} x 0..2 points x 0..2 edge points (all ordered selections from a 14-point mix, incl. points of the schema's own types nodeType and tombstone) through ToPb->PbDecodeNode, Nodes.ToPb->PbDecodeNodes, reply format->PbDecodeNodesRequest / PbDecodeNodeRequest; lists of 0..3 points keep order")
 	var ptLists [][]data.Point
 	ptLists = append(ptLists, nil)
 	for i := range mix {
